@@ -160,7 +160,7 @@ func SafeRun(p Prop, sc any, c *Ctx) (out Outcome) {
 			frame := panicFrame()
 			out.Violation = &Violation{
 				Class:  p.ID() + "/panic/" + frame,
-				Detail: fmt.Sprintf("panic: %v", r),
+				Detail: fmt.Sprintf("panic: %v%s", r, StackIfWanted()),
 			}
 			c.Event("panic %s", frame)
 		}
